@@ -661,6 +661,47 @@ def runPLine (r : Report) (sec : Nat) (l : Line) : Report :=
     return r
   | _, _ => r.mismatch sec l.idx "bad-op" (joinSp l.op)
 
+/-- the verdict on an invalid call: rejected; a panic only from the caller's reader -/
+def runInvalid (r : Report) (sec : Nat) (l : Line) (readPanic : Bool) : Report :=
+  match l.obs with
+  | "ok" :: _ => r.violation sec l.idx s!"accepted-with-invalid-target-or-source op=[{joinSp l.op}] impl=[{joinSp l.obs}]"
+  | ["err", _] => r.addCover "entry-invalid-call-rejected"
+  | "PANIC" :: _ =>
+    if readPanic then r.addCover "entry-reader-panic-propagates(the caller's panic)"
+    else r.violation sec l.idx s!"panic op=[{joinSp l.op}] impl=[{joinSp l.obs}]"
+  | _ => r.mismatch sec l.idx "unparsable-observation" (joinSp l.obs)
+
+
+/-! ### `pe`: `httpx.Parse` on requests as they arrive
+  pe kind=<K> T … P … F … H … B <json>
+K = chunked (Content-Length -1) | wrongct | noct: the body is not looked at (`Model.withJsonBody`), the request is judged without
+it; nobody (Content-Length > 0, no bytes) | readerr | overcap (a body over the 8 MB cap is cut: malformed) | tgt-nil | tgt-val |
+tgt-nilptr | tgt-ptrint: must be rejected; undercap: an ordinary request with a large body. -/
+def runPELine (r : Report) (sec : Nat) (l : Line) : Report :=
+  match l.op with
+  | _ :: k :: rest =>
+    let kind := kvStr [k] "kind"
+    let r := r.addCover s!"http-entry-{kind}"
+    let asP : Line := { l with op := "p" :: rest }
+    if kind = "chunked" || kind = "wrongct" || kind = "noct" then
+      -- the body is ignored: the same request without a body
+      match parsePOp ("p" :: rest) with
+      | some op =>
+        -- the body starts at the LAST `B` token (a header may be named B; body keys are never upper case)
+        let toks := ((("p" :: rest).reverse.dropWhile (· ≠ "B")).drop 1).reverse ++ ["B", "none"]
+        let _ := op
+        runPLine (r.addCover "http-body-not-looked-at(withJsonBody=false)") sec { asP with op := toks }
+      | none => r.mismatch sec l.idx "bad-op" (joinSp l.op)
+    else if kind = "undercap" then runPLine r sec asP
+    else
+      match parsePOp ("p" :: rest) with
+      | some op =>
+        -- path, form and headers are parsed before the body / may refuse first: any rejection is fine, acceptance is not
+        let _ := op
+        runInvalid { r with ops := r.ops + 1 } sec l false
+      | none => r.mismatch sec l.idx "bad-op" (joinSp l.op)
+  | _ => r.mismatch sec l.idx "bad-op" (joinSp l.op)
+
 /-! ### `um`: one struct type carrying a `json` and a `form` tag on every field, read by the unmarshaler of one of the keys -/
 
 def keyPart (tv : Str) : Str := tv.takeWhile (· ≠ ',')
@@ -819,6 +860,39 @@ def runVLine (r : Report) (sec : Nat) (l : Line) : Report :=
     | _ => r.mismatch sec l.idx "bad-op" (joinSp l.op)
   | _ => r.mismatch sec l.idx "bad-op" (joinSp l.op)
 
+/-! ### `e`: the entry points of core/mapping with every kind of target and source
+  e fn=<bytes|reader|map|key|yaml|toml> tgt=<ptr|ptrptr|nil|val|nilptr|ptrint> src=<doc|empty|malformed|readerr|readpanic> T <type> I <input>
+A valid target with a decoded document is an ordinary unmarshal (all monitors of `u`); everything else must be rejected
+(`Props.entry_rejects_invalid`), and only the caller's reader may panic (`Props.entry_no_panic`). -/
+
+def targetOf : String → Option Target
+  | "ptr" => some .ptr | "ptrptr" => some .ptrptr | "nil" => some .nilIface | "val" => some .value
+  | "nilptr" => some .nilPtr | "ptrint" => some .ptrNonStruct | _ => none
+
+def sourceOf : String → Option Source
+  | "doc" => some .doc | "empty" => some .empty | "malformed" => some .malformed | "readerr" => some .readErr
+  | "readpanic" => some .readPanic | _ => none
+
+def runELine (r : Report) (sec : Nat) (l : Line) : Report :=
+  match l.op with
+  | _ :: fn :: tg :: sr :: rest =>
+    let cfgToks := [fn, tg, sr]
+    let fnS := kvStr cfgToks "fn"
+    match targetOf (kvStr cfgToks "tgt"), sourceOf (kvStr cfgToks "src"),
+          parseOp ("u" :: (if fnS = "key" then "key=key" else "key=json") :: "fs=0" :: "fa=0" :: rest) with
+    | some tgt, some src, some op =>
+      let r := r.addCover s!"entry-{fnS}-tgt-{kvStr cfgToks "tgt"}-src-{kvStr cfgToks "src"}"
+      let res := entryPoint op.cfg tgt src op.ty op.input
+      if tgt.valid && src == .doc then
+        -- YAML hands a null on as the empty string (domain restriction, see `uy`)
+        runU r sec l { op with input := if fnS = "yaml" then yamlNulls true op.input else op.input } s!"mode-entry({fnS})" l.obs
+      else
+        let r := { r with ops := r.ops + 1 }
+        let r := r.addCover (match res with | .error .panic => "entry-model-panic" | .error _ => "entry-model-reject" | .ok _ => "entry-model-accept")
+        runInvalid r sec l (src == .readPanic)
+    | _, _, _ => r.mismatch sec l.idx "bad-op" (joinSp l.op)
+  | _ => r.mismatch sec l.idx "bad-op" (joinSp l.op)
+
 def runSection (r : Report) (s : Section) : Report :=
   s.lines.foldl (fun r l => if (l.op.head?.bind selOf).isSome then runPLine r s.idx l
     else if l.op.head? = some "uy" then runFrontEnd r s.idx l "mode-yaml(UnmarshalYamlBytes)" false true
@@ -830,6 +904,8 @@ def runSection (r : Report) (s : Section) : Report :=
     else if l.op.head? = some "v" then runVLine r s.idx l
     else if l.op.head? = some "um" then runMLine r s.idx l
     else if l.op.head? = some "u" then runLine r s.idx l
+    else if l.op.head? = some "e" then runELine r s.idx l
+    else if l.op.head? = some "pe" then runPELine r s.idx l
     else r.mismatch s.idx l.idx "bad-op" (joinSp l.op)) r
 
 def driver (secs : List Section) : Report := secs.foldl runSection {}
